@@ -201,7 +201,7 @@ def coq_dec(text):
     if text.startswith("PANIC"):
         return "(Panic 0)"
     m = parse_msg_text(text)
-    items = ["Panic 0" if s[0] == "ITERPANIC" else "Ok (%s)" % coq_sub(s) for s in m[3]]
+    items = ["(Panic 0 : res usub)" if s[0] == "ITERPANIC" else "Ok (%s : usub)" % coq_sub(s) for s in m[3]]
     # long runs of identical submessages (floods) as `repeat`
     groups = []
     i = 0
